@@ -1603,10 +1603,23 @@ pub fn build_linear_index(d: &BinIndexDoc, tabix_header: bool) -> io::Result<csi
         let end = bgzf::VirtualPosition::from(off);
         ix.add_record(Some((r, pos(s), pos(e), m)), Chunk::new(start, end))?;
     }
-    for _ in 0..d.unplaced {
+    for _ in 0..unplaced_count(d) {
         ix.add_record(None, Chunk::new(bgzf::VirtualPosition::from(off), bgzf::VirtualPosition::from(off + 1)))?;
     }
     Ok(ix.build(n))
+}
+
+/// Number of unplaced unmapped records of an index document. Counts beyond one byte (and beyond two)
+/// are included on purpose: the trailing count is an optional 8-byte field, and a reader that takes
+/// a partly present field for a whole one is only visible when the missing bytes are not zero.
+pub fn unplaced_count(d: &BinIndexDoc) -> u64 {
+    match d.unplaced {
+        0 => 0,
+        1 => 1,
+        2 => 258 + (d.name_seed % 200) as u64,
+        3 => 3,
+        _ => 65_792 + (d.name_seed % 50) as u64,
+    }
 }
 
 pub fn build_binned_index(d: &BinIndexDoc) -> io::Result<csi::Index> {
@@ -1622,7 +1635,7 @@ pub fn build_binned_index(d: &BinIndexDoc) -> io::Result<csi::Index> {
         let end = bgzf::VirtualPosition::from(off);
         ix.add_record(Some((r, pos(s), pos(e), m)), Chunk::new(start, end))?;
     }
-    for _ in 0..d.unplaced {
+    for _ in 0..unplaced_count(d) {
         ix.add_record(None, Chunk::new(bgzf::VirtualPosition::from(off), bgzf::VirtualPosition::from(off + 1)))?;
     }
     Ok(ix.build(n))
